@@ -13,13 +13,20 @@ open Hand
 theorem de_seq_ok_valid (xs : List F64) (hw : ∀ x ∈ xs, x.WF) (t : TwoFloat) (h : deSeq xs = .ok t) : t.Valid := by
   unfold deSeq at h
   split at h
-  · rename_i hi lo
-    unfold finish at h
-    split at h
-    · rename_i t' ht
-      cases h
-      exact C07.try_from_tuple_valid hi lo (hw hi (by simp)) (hw lo (by simp)) _ ht
-    · cases h
+  · rename_i hi lo rest
+    cases hf : finish hi lo with
+    | error e => rw [hf] at h; cases h
+    | ok t' =>
+      rw [hf] at h
+      by_cases hr : rest.isEmpty = true
+      · simp [hr] at h; subst h
+        unfold finish at hf
+        split at hf
+        · rename_i t'' ht
+          cases hf
+          exact C07.try_from_tuple_valid hi lo (hw hi (by simp)) (hw lo (by simp)) _ ht
+        · cases hf
+      · simp [hr] at h
   · cases h
 
 /-- … and so does the map form, whatever the order, multiplicity or spelling of the keys -/
@@ -65,14 +72,23 @@ theorem de_map_ok_valid (kvs : List (String × F64)) (hw : ∀ kv ∈ kvs, kv.2.
 theorem de_seq_ok_words (xs : List F64) (hw : ∀ x ∈ xs, x.WF) (t : TwoFloat) (h : deSeq xs = .ok t) : xs = [t.hi, t.lo] := by
   unfold deSeq at h
   split at h
-  · rename_i hi lo
-    unfold finish at h
-    split at h
-    · rename_i t' ht
-      cases h
-      have := (C07.try_from_tuple_ok_iff hi lo (hw hi (by simp)) (hw lo (by simp)) t).1 ht
-      rw [this.2]
-    · cases h
+  · rename_i hi lo rest
+    cases hf : finish hi lo with
+    | error e => rw [hf] at h; cases h
+    | ok t' =>
+      rw [hf] at h
+      by_cases hr : rest.isEmpty = true
+      · simp [hr] at h; subst h
+        have hrest : rest = [] := by simpa using hr
+        subst hrest
+        unfold finish at hf
+        split at hf
+        · rename_i t'' ht
+          cases hf
+          have := (C07.try_from_tuple_ok_iff hi lo (hw hi (by simp)) (hw lo (by simp)) t').1 ht
+          rw [this.2]
+        · cases hf
+      · simp [hr] at h
   · cases h
 
 /-- round trip: what `Serialize` emits deserializes back to the same words — sequence form -/
@@ -104,12 +120,33 @@ theorem de_map_rejects_invalid (hi lo : F64) (hwh : hi.WF) (hwl : lo.WF) (h : ¬
   have := (C07.try_from_tuple_err_iff hi lo hwh hwl TwoFloatError.ConversionError).2 ⟨h, rfl⟩
   simp [deMap, mapLoop, finish, this]
 
-/-- wrong arity of the sequence form is an error -/
-theorem de_seq_wrong_length (xs : List F64) (h : xs.length ≠ 2) : deSeq xs = .error .invalid_length := by
+/-- wrong arity of the sequence form is an error: too short is `invalid_length`; too long is `invalid_value` when the first
+two elements are not a valid pair (the visitor validates them first) and `invalid_length` otherwise -/
+theorem de_seq_too_short (xs : List F64) (h : xs.length < 2) : deSeq xs = .error .invalid_length := by
   unfold deSeq
   split
-  · simp at h
+  · simp at h; omega
   · rfl
+theorem de_seq_wrong_length (xs : List F64) (h : xs.length ≠ 2) :
+    deSeq xs = .error .invalid_length ∨ deSeq xs = .error .invalid_value := by
+  unfold deSeq
+  split
+  · rename_i hi lo rest
+    have hr : rest.isEmpty = false := by
+      cases rest with
+      | nil => simp at h
+      | cons a b => rfl
+    cases hf : finish hi lo with
+    | ok t => left; simp [hr]
+    | error e =>
+      right
+      unfold finish at hf
+      split at hf
+      · cases hf
+      · cases hf; rfl
+  · left; rfl
+theorem de_seq_wrong_length_rejected (xs : List F64) (h : xs.length ≠ 2) (t : TwoFloat) : deSeq xs ≠ .ok t := by
+  rcases de_seq_wrong_length xs h with h' | h' <;> rw [h'] <;> exact fun hh => by cases hh
 
 /-- missing field -/
 theorem de_map_missing_lo (hi : F64) : deMap [("hi", hi)] = .error .missing_field := by
